@@ -32,6 +32,7 @@ func checkC01(c *Ctx) {
 	c.newickTables(wt, wn, pi, sc, si, ii)
 	c.newickOrder(wt, wn)
 	c.newickGuards(wn)
+	c.newickParens(wn)
 	c.newickFloats([]*FuncInfo{wt, wn}, []*FuncInfo{pi, pp, si})
 	c.Floor("FIELDS", 6)
 	c.Floor("TABLE", 5)
@@ -674,5 +675,53 @@ func (c *Ctx) newickFloats(writers, readers []*FuncInfo) {
 				c.Check(bv != nil && bv.String() == "64", "FLOATFMT", fmt.Sprintf("%s/ParseFloat#%d", funcName(fi.Obj), n), call.Pos(), "parsed as float64", "number parsed with bitSize "+c.src(call.Args[1])+": not the float64 that was printed").Clause = clause
 			}
 		}
+	}
+}
+
+// newickParens: a node with at least two neighbours (one of them its parent, or a root with two
+// children) has children and must be written as a parenthesised group; '(' and ')' are written
+// under the same condition.
+func (c *Ctx) newickParens(wn *FuncInfo) {
+	info := wn.Pkg.TypesInfo
+	r := recvObj(info, wn.Decl)
+	clause := "the same rooted shape ... whatever the tree size, degree of multifurcation or rootedness"
+	guards := map[string]*bexpr{}
+	pos := map[string]token.Pos{}
+	for _, call := range callsIn(wn.Decl.Body, false) {
+		if len(call.Args) != 1 {
+			continue
+		}
+		tv, ok := info.Types[call.Args[0]]
+		if !ok || tv.Value == nil || tv.Value.Kind() != constant.String {
+			continue
+		}
+		lit := constant.StringVal(tv.Value)
+		if lit != "(" && lit != ")" {
+			continue
+		}
+		conds, okc := c.pathConds(info, wn.Decl.Body, call, false)
+		if !okc {
+			c.Undecided("GF", "tree.Node.Newick/paren "+lit, call.Pos(), "guard shape not understood")
+			return
+		}
+		guards[lit] = c.condsToBexpr(info, conds, nil)
+		pos[lit] = call.Pos()
+	}
+	if guards["("] == nil || guards[")"] == nil {
+		c.Violation("GF", "tree.Node.Newick/parens", wn.Decl.Pos(), "the writer does not emit both '(' and ')'").Clause = clause
+		return
+	}
+	spec := intCmp("len("+r.Name()+".neigh)", token.GTR, 1)
+	imp, wit, _, err := gfImplies(spec, guards["("])
+	if err != nil {
+		c.Undecided("GF", "tree.Node.Newick/inner-node-parenthesised", pos["("], err.Error())
+	} else {
+		c.Check(imp, "GF", "tree.Node.Newick/inner-node-parenthesised", pos["("], "every node with at least two neighbours is written as a parenthesised group", "'(' is written under "+guards["("].String()+", which does not follow from `the node has at least two neighbours`: an inner node with a single child (left by a re-rooting) is written without parentheses and the text no longer describes the tree ("+wit+")").Clause = clause
+	}
+	eq, wit2, _, err := gfEquiv(guards["("], guards[")"])
+	if err != nil {
+		c.Undecided("GF", "tree.Node.Newick/parens-balanced", pos[")"], err.Error())
+	} else {
+		c.Check(eq, "GF", "tree.Node.Newick/parens-balanced", pos[")"], "'(' and ')' are written under the same condition", "'(' is written under "+guards["("].String()+" but ')' under "+guards[")"].String()+": "+wit2).Clause = clause
 	}
 }
